@@ -123,7 +123,7 @@ Definition show_len (r : res nat) : list str :=
 (** c06len: …  ->  model (bytes) ; repaired model ; spec *)
 Definition entry_len (a : list str) : list str :=
   let '(sh, rf, _) := dec_shell a in
-  show_len (parameter_length sh rf) ++ show_len (parameter_length' sh rf) ++ show_len (length_spec sh rf).
+  show_len (parameter_length sh rf) ++ show_len (length_spec sh rf).
 
 (** c06sub: … off haslen len  ->  model ; repaired model ; spec *)
 Definition entry_sub (a : list str) : list str :=
@@ -131,8 +131,7 @@ Definition entry_sub (a : list str) : list str :=
   match r with
   | off :: hl :: l :: _ =>
       let olen := if dec_bool hl then Some (dec_Z l) else None in
-      show_res (substring sh rf (dec_Z off) olen) ++ show_res (substring' sh rf (dec_Z off) olen) ++
-      show_spec (substring_spec sh rf (dec_Z off) olen)
+      show_res (substring sh rf (dec_Z off) olen) ++ show_spec (substring_spec sh rf (dec_Z off) olen)
   | _ => [lit "?bad-case"]
   end.
 
@@ -165,8 +164,7 @@ Definition entry_rm (a : list str) : list str :=
           | [] => None
           end
         else match r' with p :: _ => Some (mini_glob p) | [] => None end in
-      show_res (removal false sh rf (dec_rop op) m) ++ show_res (removal true sh rf (dec_rop op) m) ++
-      show_spec (removal_oracle sh rf (dec_rop op) m)
+      show_res (removal true sh rf (dec_rop op) m) ++ show_spec (removal_oracle sh rf (dec_rop op) m)
   | _ => [lit "?bad-case"]
   end.
 
@@ -175,3 +173,24 @@ Definition entry_keys (a : list str) : list str :=
   let '(sh, rf, _) := dec_shell a in
   let c := match rf with RAll c => c | _ => false end in
   show_args (dq_args (member_keys sh c)) None ++ show_args (keys_spec sh c) None.
+
+(** c06subev: … off_val off_err off_inc haslen len_val len_err len_inc  ->  model ; spec, each with the
+    counter after the expansion in the "assigned" slot *)
+Definition dec_operand (v e i : str) : operand := {| oval := dec_Z v; oerr := dec_bool e; oinc := dec_Z i |}.
+Definition show_ev (r : res (list str * option str) * Z) : list str :=
+  match fst r with
+  | Ok (l, _) => show_args l (Some (show_Z (snd r)))
+  | Fail => [lit "FAIL"]
+  | Panic => [lit "PANIC"]
+  end.
+Definition entry_subev (a : list str) : list str :=
+  let '(sh, rf, r) := dec_shell a in
+  match r with
+  | ov :: oe :: oi :: hl :: lv :: le :: li :: _ =>
+      let off := dec_operand ov oe oi in
+      let olen := if dec_bool hl then Some (dec_operand lv le li) else None in
+      let m := substring_ev sh rf off olen in
+      show_ev (match fst m with Ok e => Ok (dq_args e, None) | Fail => Fail | Panic => Panic end, snd m) ++
+      show_ev (substring_spec_ev sh rf off olen)
+  | _ => [lit "?bad-case"]
+  end.
